@@ -3,11 +3,11 @@ import random
 
 from hypothesis import strategies as st
 
-from .. import common, gen, runner, sut
+from .. import common, gen, gen_text, runner, sut
 from .. import model as M
 
 ID = "C14"
-RULE = ("Generated programs x both layouts of generate_code (helper nested / helper exposed at module level) x boundary "
+RULE = ("Generated programs (one third written with generated whitespace / comments incl. lone CR, FF) x both layouts of generate_code (helper nested / helper exposed at module level) x boundary "
         "inputs (plus inputs with a missing field and unroutable inputs). Oracle: the text compiles stand-alone in a fresh "
         "namespace, defines a callable named after the experiment (and, exposed layout, the helper at module level); for "
         "every input the same group (value and type) or the same exception class as ExperimentEvaluator(text), with random "
@@ -23,6 +23,9 @@ SHARDS = {"quick": 1, "thorough": 16}
 def cases(draw):
     c = draw(st.one_of(gen.program_cases(n_inputs=(3, 6), max_depth=3), gen.program_cases(n_inputs=(3, 6), pool=gen.ADVERSARIAL_POOL, max_depth=2),
                        gen.big_programs()))
+    if draw(st.integers(0, 2)) == 0:
+        # the source the user wrote: same tokens with generated whitespace / comments (CR, FF, // and /* */ included)
+        c["text"] = draw(gen_text.trivia_variant(M.program_tokens(c["prog"])))[0]
     fields = list(c["inputs"][0].keys()) if c["inputs"] else []
     if fields and draw(st.booleans()):
         drop = draw(st.sampled_from(fields))
@@ -41,8 +44,12 @@ def _call(fn, env, seeded, k):
 
 def judge(case):
     prog = case["prog"]
-    text = M.render(prog)
+    text = case.get("text") or M.render(prog)
     tags = common.shape_tags(prog)
+    if "text" in case:
+        tags.append("source-with-trivia")
+        if "\r" in case["text"].replace("\r\n", ""):
+            tags.append("source-with-lone-CR")
     res = sut.compile_text(text)
     if res[0] != "ok":
         return {"viol": ["does not compile: %s %s | %s" % (res[1], res[2], text)], "tags": tags}
